@@ -141,7 +141,7 @@ def render(cfg: dict, layer: Layer, view: View) -> Image:
                     if v is not None:
                         for s in range(sa - a, sb - a):
                             bm[s >> 3] |= 0x80 >> (s & 7)
-            f.write(pos, bytes(bm))
+            f.write_blob(pos, bytes(bm))  # a bit array, not a structure with fields
             put_view(f, pos + bm_sectors * 512, view, a, b)
             if b - a < spb:
                 put_poison(f, pos + (bm_sectors + (b - a)) * 512, (spb - (b - a)) * 512, 0xB10C)
